@@ -51,12 +51,29 @@ Fixpoint kahn (fuel : nat) (nodes : list string) (es : list edge) : list string 
 Definition cyclic (nodes : list string) (es : list edge) : bool :=
   nonempty (kahn (length nodes) nodes es).
 
-(* ------------------------------------------------------------------ the known classes *)
-Inductive kclass := KNone | KSelfTarget | KNamedCycle | KStarUnsat | KStarReplace | KAfterOverwritten.
+(* ------------------------------------------------------------------ the classes *)
+(* KSelfSilent, KNamedCycle, KStarUnsat, KStarReplace, KAfterOverwritten are KNOWN findings (the property
+   fails for some of their members).  Until /repo 591f9f1 (depth guard in sortCallbacks) the members of
+   KNamedCycle and of the self-target classes whose recursion never ended killed the process; they now get
+   an error.  KSelfTarget (a callback naming itself and nothing else naming it) is a label only: nothing is
+   excused for it any more. *)
+Inductive kclass := KNone | KSelfTarget | KNamedCycle | KStarUnsat | KStarReplace | KAfterOverwritten | KSelfSilent.
 
 Definition self_target (live : list entry) : bool :=
   existsb (fun e => (negb (is_none (e_before e)) && String.eqb (e_before e) (e_name e))
                     || (negb (is_none (e_after e)) && String.eqb (e_after e) (e_name e))) live.
+(* a callback that names itself and may be accepted silently: it carries a second, different request
+   (the Before half then places it before the After half looks for it), or another callback names it
+   (which sets / overwrites its requests before it is sorted) *)
+Definition self_silent (live : list entry) : bool :=
+  existsb (fun e =>
+    let sb := negb (is_none (e_before e)) && String.eqb (e_before e) (e_name e) in
+    let sa := negb (is_none (e_after e)) && String.eqb (e_after e) (e_name e) in
+    (sb || sa)
+    && ((sa && negb (is_none (e_before e)) && negb sb)
+        || (sb && negb (is_none (e_after e)) && negb sa)
+        || existsb (fun c => negb (named (e_name e) c)
+                             && (String.eqb (e_before c) (e_name e) || String.eqb (e_after c) (e_name e))) live)) live.
 Definition both_star (live : list entry) : bool :=
   existsb (fun e => is_star (e_before e) && is_star (e_after e)) live && Nat.leb 2 (length live).
 Definition star_replaced (live : list entry) : bool :=
@@ -74,14 +91,16 @@ Definition class_of (r : rstate) : kclass :=
   let live := r_live r in
   let nodes := map e_name live in
   let base := builtin_chain None live ++ named_edges live in
-  if self_target live then KSelfTarget
-  else if cyclic nodes base then KNamedCycle
-  else if cyclic nodes (base ++ star_edges live) || both_star live then KStarUnsat
+  if self_silent live then KSelfSilent
+  else if negb (cyclic nodes base) && (cyclic nodes (base ++ star_edges live) || both_star live) then KStarUnsat
   else if star_replaced live then KStarReplace
   else if after_overwritten live then KAfterOverwritten
+  else if self_target live then KSelfTarget
+  else if cyclic nodes base then KNamedCycle
   else KNone.
 
-Definition is_known (r : rstate) : bool := match class_of r with KNone => false | _ => true end.
+Definition is_known (r : rstate) : bool :=
+  match class_of r with KNone | KSelfTarget => false | _ => true end.
 
 (* a history is excused from the first call on that puts the (in-domain) book into a known class *)
 Fixpoint known_from (r : rstate) (i : N) (h : list step) : bool :=
